@@ -111,26 +111,41 @@ func runDeadline(c *DeadlineCase) error {
 		}
 		cancel()
 		atomic.StoreInt32(&traced, 0)
-		var res2 struct {
-			err error
-			pan interface{}
-		}
-		func() {
-			defer func() { res2.pan = recover() }()
-			if c.UseRun {
-				_, res2.err = r.E.Run(map[string]interface{}{"N": 3})
-			} else {
-				_, res2.err = r.E.Execute(map[string]interface{}{"N": 3})
+		// not one run but several: each must come back at once, with an error
+		for again := 0; again < 3; again++ {
+			type res2t struct {
+				err error
+				pan interface{}
 			}
-		}()
-		if res2.pan != nil {
-			return fmt.Errorf("panic: %v", res2.pan)
-		}
-		if res2.err == nil {
-			return fmt.Errorf("after %d successful run(s) the context was cancelled, yet the next run executed and returned no error", c.Millis)
-		}
-		if n := atomic.LoadInt32(&traced); n != 0 {
-			return fmt.Errorf("after %d successful run(s) the context was cancelled, yet the next run made %d host call(s)", c.Millis, n)
+			done2 := make(chan res2t, 1)
+			useRun := c.UseRun || again == 1
+			go func() {
+				var res2 res2t
+				defer func() {
+					res2.pan = recover()
+					done2 <- res2
+				}()
+				if useRun {
+					_, res2.err = r.E.Run(map[string]interface{}{"N": 3})
+				} else {
+					_, res2.err = r.E.Execute(map[string]interface{}{"N": 3})
+				}
+			}()
+			var res2 res2t
+			select {
+			case res2 = <-done2:
+			case <-time.After(c09Margin):
+				return fmt.Errorf("after %d successful run(s) the context was cancelled; run %d after that did not return within %v", c.Millis, again+1, c09Margin)
+			}
+			if res2.pan != nil {
+				return fmt.Errorf("panic: %v", res2.pan)
+			}
+			if res2.err == nil {
+				return fmt.Errorf("after %d successful run(s) the context was cancelled, yet run %d after that executed and returned no error", c.Millis, again+1)
+			}
+			if n := atomic.LoadInt32(&traced); n != 0 {
+				return fmt.Errorf("after %d successful run(s) the context was cancelled, yet run %d after that made %d host call(s)", c.Millis, again+1, n)
+			}
 		}
 		return nil
 	}
